@@ -296,6 +296,11 @@ class PropCheck:
         """run one protocol line on the real code, return the canonical result string"""
         raise NotImplementedError
 
+    def impl_only(self, line: str) -> bool:
+        """True for lines that have no model twin (an environment choice the Lean model does not have): run on the
+        implementation and judged by the spec judge only, never compared; counted under their own block name"""
+        return False
+
     def cases(self, res: "Result", tier: str, rng: random.Random) -> List[Tuple[str, str]]:
         """(line, generator-block) pairs; corpus lines are prepended by run_check"""
         raise NotImplementedError
@@ -395,8 +400,11 @@ def correspond(pc: PropCheck, res: Result, cases: List[Tuple[str, str]], chunk=2
     bad, viol = [], []
     for i in range(0, len(cases), chunk):
         part = cases[i : i + chunk]
-        model_out = run_driver([l for l, _ in part])
-        impl_out = impl_until_hangs(pc, res, [l for l, _ in part], model_out)
+        twin = [l for l, _ in part if not pc.impl_only(l)]
+        mo_of = dict(zip(twin, run_driver(twin))) if twin else {}
+        model_out = [mo_of.get(l) for l, _ in part]
+        impl_out = impl_until_hangs(pc, res, [l for l, _ in part], [mo if mo is not None else "" for mo in model_out])
+        model_out = [io if mo is None else mo for io, mo in zip(impl_out, model_out)]   # no twin: nothing to compare
         triples = []
         for (l, g), io, mo in zip(part, impl_out, model_out):
             res.evaluations += 1
@@ -485,7 +493,9 @@ def run_check(pc: PropCheck, tier: str) -> int:
         lines = pc.search_lines(res, tier, random.Random(res.seed * 7919 + 3))
         seen = {l for l, _, _ in bad}
         lines = [l for l in lines if l not in seen]
-        mos = run_driver(lines) if DRV.exists() else [None] * len(lines)
+        tw = [l for l in lines if not pc.impl_only(l)]
+        mo_of = dict(zip(tw, run_driver(tw))) if DRV.exists() and tw else {}
+        mos = [mo_of.get(l) or "" for l in lines]
         ios = impl_until_hangs(pc, res, lines, mos)
         triples = [(l, io, None) for l, io in zip(lines, ios)]
         res.extra["search_inputs"] = len(triples)
@@ -499,7 +509,7 @@ def replay_generic(pc: PropCheck, path: str) -> int:
     lines = [d["case"]] if "case" in d else []
     for l in lines:
         io = impl_safe(pc, l)
-        mo = run_driver([l])[0]
+        mo = io if pc.impl_only(l) else run_driver([l])[0]
         v = pc.judge([(l, io, mo)])
         print("case :", l)
         print("impl :", io)
